@@ -207,16 +207,24 @@ def _conversions(cell, elems, ctx):
                     names = R.coord_names(target)
                     gname = "to_" + "".join(names)
                     pname = "to_" + "".join(MOM_NAME[n] for n in names)
+                    # keyword spellings for coordinates a lower-dimensional vector has to impute
+                    kwp, kwg = {}, {}
+                    h = zlib.crc32(f"{cell['id']}{pname}".encode())
+                    if h % 3:
+                        if td >= 3 and d < 3:
+                            kwp[MOM_NAME[names[2]]] = kwg[names[2]] = 0.375 + (h % 7) / 8
+                        if td == 4 and d < 4:
+                            kwp[MOM_NAME[names[3]]] = kwg[names[3]] = 1.625 + (h % 5) / 4
                     ctx.evaluation()
-                    a, b = _call(lambda: getattr(v, pname)()), _call(lambda: getattr(v, gname)())
+                    a, b = _call(lambda: getattr(v, pname)(**kwp)), _call(lambda: getattr(v, gname)(**kwg))
                     if a[0] != b[0]:
                         _fail(ctx, cell, pname, "conversion", f"{pname}() -> {a[0]} {a[1]!r}; {gname}() -> {b[0]} {b[1]!r}")
                         return
                     if a[0] != "ok":
                         continue
                     if type(a[1]) is not type(b[1]) or _bits(a[1]) != _bits(b[1]):
-                        _fail(ctx, cell, pname, "conversion", f"{pname}() = {type(a[1]).__name__} differs from {gname}() = {type(b[1]).__name__} "
-                              f"for stored {rows[0]}")
+                        _fail(ctx, cell, pname, "conversion", f"{pname}({kwp}) = {type(a[1]).__name__} differs from {gname}({kwg}) = "
+                              f"{type(b[1]).__name__} for stored {rows[0]}")
                         return
                     ctx.nontrivial(key=[cell["id"], pname, mom, rows[0]], sample={"conversion": pname, "stored": rows[0]})
 
